@@ -77,10 +77,6 @@ func main() {
 			os.Exit(2)
 		}
 		c.R = NewReport("dump", "quick")
-		if os.Getenv("DBG_STALE") != "" {
-			dbgStale(c, *dump)
-			return
-		}
 		dumpFn(c, *dump)
 		return
 	}
